@@ -107,6 +107,7 @@ HistT(h, ev, w2) ==
 TransferConservation(w, h) ==
   LET items == FlatItems(w.msgs) IN
   \A k \in UNION {DOMAIN w.acct[a].esdt : a \in Accts(w)} \cup ItemKeys(items) \cup DOMAIN h.tsupply : TotalI(w, items, k) = TSupplyOf(h, k)
+\* C02's accounting: for every storage key, balances + in-flight transfers = what issues, mints, creates, burns and wipes STATED (history h.supply)
 Conservation(w, h) ==
   LET items == FlatItems(w.msgs) IN
   \A k \in UNION {DOMAIN w.acct[a].esdt : a \in Accts(w)} \cup ItemKeys(items) \cup DOMAIN h.supply : TotalI(w, items, k) = SupplyOf(h, k)
@@ -129,6 +130,7 @@ EntryWF(k, e) ==
   /\ e.type = 0 => ~e.hm
   /\ e.type = 1 => e.hm /\ e.meta.nonce > 0 /\ \E t \in {SubSeq(k, 1, j) : j \in 0..Len(k)} : k = t \o NBHex(e.meta.nonce)
   /\ e.type \in {0, 1}
+\* C15: every protocol entry decodes, has a positive balance (zero only with the frozen flag), the right shape for its kind, a key matching its nonce and an issued token; role lists without duplicates; the create-role holder's counter covers every nonce issued
 WellFormed(w, h) ==
   \A a \in Accts(w) :
     LET ac == w.acct[a] IN
@@ -143,6 +145,7 @@ CounterWithRole(w, h) ==
     LET ac == w.acct[a] IN
     /\ \A t \in DOMAIN ac.roles : (RoleCreate \in Range(ac.roles[t]) /\ ~IsDupTok(t)) => CtrOf(ac, t) >= MaxN(h, t)
     /\ \A t \in DOMAIN ac.ctr : IsDupTok(t) \/ RoleCreate \in Range(RolesOf(ac, t))
+\* the system accounts hold nothing but well-formed pause flags
 SysClean(w) == \A s \in DOMAIN w.sysx : w.sysx[s] = <<>>
 
 =============================================================================
